@@ -1,4 +1,5 @@
 import IcyVerif.Lemmas.TermWrap
+import IcyVerif.Lemmas.TermOther
 /-! # C09 — cursor and fixed-grid geometry stay consistent under any stream
 Theorems for the ANSI emulation (all four music options, with or without BS as control character) on a terminal
 buffer with scrollback.  `run` feeds a whole stream through `step`, one character at a time, so quantifying over
@@ -6,8 +7,8 @@ all streams covers every prefix.  A stream "requests a text-area resize" iff `re
 (`CSI 8;h;w t`, also when executed from inside a macro).
 
 Full statement of the property (every text-mode emulation; Viewdata/Mode 7 keep their 40x24 page):
-the theorems below cover ANSI, Avatar, PCBoard, Ctrl-A and Renegade; PETSCII, ATASCII, Viewdata, Mode 7 are
-covered by the oracle run of `harness/src/c09.rs` only (exploration, no theorem). -/
+the theorems below cover all ten text-mode emulations (ANSI with its wrappers Avatar, PCBoard, Ctrl-A, Renegade;
+ASCII, ATASCII, PETSCII; Viewdata and Mode 7 with the fixed-grid clause). -/
 namespace IcyVerif.C09
 open IcyVerif.Term
 
@@ -61,6 +62,32 @@ theorem cursor_in_screen_wrapped (e : Emu) (w h : Int) (hw1 : 1 ≤ w) (hw2 : w 
   obtain ⟨_, hc, hi⟩ := hg
   obtain ⟨_, i2, i3, i4⟩ := hi hres
   exact ⟨hc.1, i2, i3, i4⟩
+
+/-- ASCII, ATASCII and PETSCII (scrolling terminals), Viewdata and Mode 7 (pages): cursor inside the screen after
+    every character of every stream -/
+theorem cursor_in_screen_bytes (e : Emu2) (w h : Int) (hw1 : 1 ≤ w) (hw2 : w ≤ 132) (hh1 : 1 ≤ h) (hh2 : h ≤ 60)
+    (bytes : List Char) (st : OSt) (hrun : orun e (initO w h) bytes = .ok st) :
+    0 ≤ st.c.x ∧ st.c.x < st.s.tw ∧ st.s.fv ≤ st.c.y ∧ st.c.y < st.s.fv + st.s.th := by
+  have hi := initO_good w h hw1 hw2 hh1 hh2
+  have hg := orun_good e bytes (initO w h) hi.1 (fun _ => hi.2)
+  rw [hrun] at hg
+  obtain ⟨⟨_, hc, ⟨_, i2, i3, i4⟩⟩, _⟩ := hg
+  exact ⟨hc.1, i2, i3, i4⟩
+
+/-- Viewdata and Mode 7 keep exactly their 40x24 page: terminal size, buffer size and hence "no scrollback" -/
+theorem fixed_grid (e : Emu2) (he : e = .viewdata ∨ e = .mode7) (bytes : List Char) (st : OSt)
+    (hrun : orun e (initO 40 24) bytes = .ok st) :
+    st.s.tw = 40 ∧ st.s.th = 24 ∧ st.s.bw = 40 ∧ st.s.bh = 24 ∧ st.s.fv = 0 := by
+  have hi := initO_good 40 24 (by decide) (by decide) (by decide) (by decide)
+  have hg := orun_good e bytes (initO 40 24) hi.1 (fun _ => hi.2)
+  have hs := page_run_same e he bytes (initO 40 24)
+  rw [hrun] at hg hs
+  obtain ⟨hgo, hf⟩ := hg
+  obtain ⟨f1, f2⟩ := hf he
+  have htw : st.s.tw = 40 := hs.1
+  have hth : st.s.th = 24 := hs.2
+  refine ⟨htw, hth, by rw [f2, htw], by rw [f1, hth], ?_⟩
+  exact fixed_fv st ⟨hgo, ⟨f1, f2⟩⟩
 
 /-! non-vacuity: a stream that fills the scrollback, sets margins, tabs beyond the last stop and restores a
     stale saved position ends on the screen (the pinned tree left the cursor outside in each of these) -/
